@@ -26,6 +26,7 @@ RULE = (
     "grids + refusals; non-trivial = all but the (state, same state) searches."
 )
 ASSUMPTIONS = [
+    "a fit that ends in the library's MinimizationFailure is a permitted outcome (C17) and is retried with the next data variant",
     "noise magnitudes of the selected estimator are not required to be grid members: GridSearchCV refits the best estimator "
     "and fit retunes them by design (C17); their key sets are checked instead",
 ]
@@ -72,6 +73,7 @@ def cases(tier, seed):
 
 def eval_machine(case):
     from formak import ui
+    from formak.exceptions import MinimizationFailure
     from formak.ui_state_machine import StateId
     d = model_def()
     fails = []
@@ -105,7 +107,19 @@ def eval_machine(case):
                 continue
             ntrans += 1
             try:
-                nxt = getattr(obj, name)(**canned[name]())
+                nxt = None
+                for variant in range(6):
+                    try:
+                        kwargs = canned[name]()
+                        if "data" in kwargs:
+                            kwargs["data"] = data_rows(4 + variant % 2, 0, variant)
+                        nxt = getattr(obj, name)(**kwargs)
+                        break
+                    except MinimizationFailure:
+                        continue  # the library's own minimisation error is a permitted outcome of fitting (C17); try other data
+                if nxt is None:
+                    fail("harness:no-fittable-data", f"every canned data set for {name} ended in MinimizationFailure")
+                    continue
             except Exception as e:
                 fail(f"transition-raises:{name}", f"{name} from {sid} raised {type(e).__name__}: {str(e)[:200]}")
                 continue
@@ -216,13 +230,24 @@ def eval_grid(case):
         if not any(f["key"] == key for f in fails):
             fails.append({"key": key, "what": f"{tag}: {what}"})
 
-    st = ui.DesignManager("d").symbolic_model(model=pyimpl.ui_model(d))
-    ps = param_space(d, grid)
-    try:
-        fit = st.fit_model(parameter_space=ps, data=data_rows(case["rows"], case["seed"], case["grid"]))
-    except Exception as e:
-        fail(f"fit_model-raises:{type(e).__name__}", f"{type(e).__name__}: {str(e)[:200]}")
-        return {"n": 1, "fails": fails, "outcomes": ["grid-fit-raised"]}
+    from formak.exceptions import MinimizationFailure
+    fit = None
+    nfail = 0
+    for variant in range(8):
+        st = ui.DesignManager("d").symbolic_model(model=pyimpl.ui_model(d))
+        ps = param_space(d, grid)
+        try:
+            fit = st.fit_model(parameter_space=ps, data=data_rows(case["rows"] + variant % 2, case["seed"], case["grid"] + variant))
+            break
+        except MinimizationFailure:
+            nfail += 1  # permitted outcome of fitting (C17): the property constrains what a SUCCESSFUL selection looks like
+            continue
+        except Exception as e:
+            fail(f"fit_model-raises:{type(e).__name__}", f"{type(e).__name__}: {str(e)[:200]}")
+            return {"n": 1, "fails": fails, "outcomes": ["grid-fit-raised"]}
+    if fit is None:
+        return {"n": nfail, "fails": [], "outcomes": ["grid-all-minimization-failures"], "sig": tag,
+                "sample": {"kind": "grid", "grid": str(grid), "outcome": "MinimizationFailure on all 8 data variants"}}
     if fit.state_id() != StateId.Fit_Model or list(fit.history()) != [StateId.Start, StateId.Symbolic_Model, StateId.Fit_Model]:
         fail("history", f"fitted state id {fit.state_id()} history {fit.history()}")
     est = fit.fit_estimator
